@@ -377,4 +377,146 @@ theorem repair_gen_ord (zero : Feature) (nil : Loc) (sortInts : List Int → Lis
     rw [repairTail_eq]
     simp only [repairOrdN, List.foldl_map]
 
+/-! ### `repairOrdN` and the model -/
+
+theorem length_sliceN (nil : Loc) (p : List Loc) : (sliceN nil p).length = sliceLen p := by
+  simp only [sliceN, sliceLen]
+  split <;> rfl
+
+theorem foldl_classStep_nil_mono (ff : Table) : ∀ (cs : List (List Nat)) (s : RepairSt),
+    (cs.foldl (classStep ff) s).nil = false → s.nil = false
+  | [], _, h => h
+  | c :: cs, s, h => by
+    have := foldl_classStep_nil_mono ff cs (classStep ff s c) h
+    simp only [classStep] at this
+    split at this
+    · simp only [Bool.or_eq_false_iff] at this; exact this.1
+    · exact this
+
+/-- as long as the model writes no nil `Location`, the two class loops are in the same state -/
+theorem foldl_classStepN_eq (nil : Loc) (ff : Table) : ∀ (cs : List (List Nat)) (st : Table × List Nat) (stM : RepairSt),
+    st.1 = stM.gg → st.2 = stM.keep → (cs.foldl (classStep ff) stM).nil = false →
+    cs.foldl (classStepN nil ff) st = ((cs.foldl (classStep ff) stM).gg, (cs.foldl (classStep ff) stM).keep)
+  | [], st, stM, h1, h2, _ => by simp only [List.foldl_nil, ← h1, ← h2]
+  | c :: cs, st, stM, h1, h2, hn => by
+    simp only [List.foldl_cons] at hn ⊢
+    have hc := foldl_classStep_nil_mono ff cs _ hn
+    apply foldl_classStepN_eq nil ff cs _ _ _ _ hn
+    · simp only [classStepN, classStep, length_sliceN, h1] at hc ⊢
+      split
+      · rename_i hlt
+        simp only [hlt, if_true, Bool.or_eq_false_iff] at hc
+        simp only [sliceN, hc.2, Bool.false_eq_true, if_false]
+      · rfl
+    · simp only [classStepN, classStep, length_sliceN, h1, h2]
+      split <;> rfl
+
+/-- the kept indices are taken from the classes -/
+theorem foldl_classStepN_keep (nil : Loc) (ff : Table) : ∀ (cs : List (List Nat)) (st : Table × List Nat),
+    ∃ X, (cs.foldl (classStepN nil ff) st).2 = st.2 ++ X ∧ X.Sublist cs.flatten
+  | [], st => ⟨[], by simp, List.Sublist.refl _⟩
+  | c :: cs, st => by
+    obtain ⟨X, hX, hs⟩ := foldl_classStepN_keep nil ff cs (classStepN nil ff st c)
+    simp only [List.foldl_cons, List.flatten_cons]
+    rw [hX]
+    simp only [classStepN]
+    split
+    · exact ⟨c.take (sliceN nil (pushedOf (classForce ff c) (classLocs st.1 c))).length ++ X,
+        by simp only [List.append_assoc], (List.take_sublist _ _).append hs⟩
+    · exact ⟨c ++ X, by simp only [List.append_assoc], (List.Sublist.refl _).append hs⟩
+
+theorem length_foldl_classStepN (nil : Loc) (ff : Table) : ∀ (cs : List (List Nat)) (st : Table × List Nat),
+    (cs.foldl (classStepN nil ff) st).1.length = st.1.length
+  | [], _ => rfl
+  | c :: cs, st => by
+    rw [List.foldl_cons, length_foldl_classStepN nil ff cs, length_classStepN]
+
+/-- **`repairOrdN` never fails** over a permutation of the classes of the table (the compaction reads and
+writes inside the table: `keep` is a duplicate-free list of table indices) -/
+theorem repairOrdN_some (nil : Loc) (ff : Table) (cs : List (List Nat)) (hp : cs.Perm (Table.groups ff)) :
+    ∃ t, repairOrdN nil ff cs = some t := by
+  obtain ⟨X, hX, hs⟩ := foldl_classStepN_keep nil ff cs (ff, [])
+  simp only [List.nil_append] at hX
+  have hnd : cs.flatten.Nodup := (hp.flatten.nodup_iff).mpr (Table.groups_flatten_nodup ff)
+  have hXnd : X.Nodup := hnd.sublist hs
+  have hXlt : ∀ j ∈ X, j < ff.length := fun j hj =>
+    (Table.mem_groups_flatten ff j).mp ((hp.flatten.mem_iff).mp (hs.subset hj))
+  have hperm := sortNat_perm X
+  have hsorted : (sortNat X).Pairwise (· < ·) := by
+    have hle := sortNat_sorted X
+    have hnd' : (sortNat X).Nodup := (hperm.nodup_iff).mpr hXnd
+    have := hle.and hnd'
+    exact this.imp (fun ⟨h1, h2⟩ => Nat.lt_of_le_of_ne h1 h2)
+  have hc := compact_incr (cs.foldl (classStepN nil ff) (ff, [])).1 (sortNat X) hsorted (fun j hj => by
+    rw [length_foldl_classStepN]
+    exact hXlt j ((hperm.mem_iff).mp hj))
+  exact ⟨_, by simp only [repairOrdN, hX]; exact hc⟩
+
+theorem repairOrd_ok (ff : Table) (cs : List (List Nat)) (t : Table) (h : repairOrd ff cs = .ok t) :
+    (cs.foldl (classStep ff) ⟨ff, [], false⟩).nil = false ∧
+      compact (cs.foldl (classStep ff) ⟨ff, [], false⟩).gg (sortNat (cs.foldl (classStep ff) ⟨ff, [], false⟩).keep) = some t := by
+  simp only [repairOrd] at h
+  split at h
+  · cases h
+  · rename_i gg hgg
+    split at h
+    · cases h
+    · rename_i hnil
+      cases h
+      exact ⟨by simpa using hnil, hgg⟩
+
+/-- when the model answers a table, `repairOrdN` answers the same table -/
+theorem repairOrdN_of_ok (nil : Loc) (ff : Table) (cs : List (List Nat)) (t : Table)
+    (h : repairOrd ff cs = .ok t) : repairOrdN nil ff cs = some t := by
+  obtain ⟨hn, hc⟩ := repairOrd_ok ff cs t h
+  simp only [repairOrdN, foldl_classStepN_eq nil ff cs (ff, []) ⟨ff, [], false⟩ rfl rfl hn]
+  exact hc
+
+/-- **`Repair(ff)` as feature.go defines it now returns the table the model's `repair ff` returns** — for every
+table on which the model answers a table (every table without a class of two or more empty `Joined{}`
+literals: `Gts.C12.no_panic_ok`), every order in which Go visits the map, every sorted permutation that
+`sort.Sort(sort.IntSlice(keep))` produces, every zero `Feature` and nil `Location` -/
+theorem repair_gen (zero : Feature) (nil : Loc) (sortInts : List Int → List Int)
+    (sprintf : String → String → List (List String) → String)
+    (rangeMap : List (String × List Int) → List (String × List Int))
+    (hfmt : ∀ f : Feature, sprintf "%q:%q" f.key f.props = classKey f)
+    (hsort : ∀ l, (sortInts l).Perm l ∧ (sortInts l).Pairwise (· ≤ ·))
+    (hrange : ∀ m, (rangeMap m).Perm m) (ff t : Table) (h : repair ff = .ok t) :
+    Gen.repair zero nil sortLocs sortInts sprintf rangeMap ff = some t := by
+  obtain ⟨cs, hp, he⟩ := repair_gen_ord zero nil sortInts sprintf rangeMap hfmt hsort hrange ff
+  rw [he]
+  apply repairOrdN_of_ok
+  have : repairOrd ff cs = repair ff :=
+    (repairOrd_perm ff _ _ hp.symm (Table.groups_flatten_nodup ff)).symm
+  rw [this, h]
+
+/-- **`Repair(ff)` as feature.go defines it now never panics**, on any table (in particular: the index
+expressions `gg[i]`, `ff[indices[0]]`, `gg[indices[i]]`, the slice `indices[:len(locs)]`, the compaction and
+`gg[:len(keep)]` stay in range) -/
+theorem repair_gen_nopanic (zero : Feature) (nil : Loc) (sortInts : List Int → List Int)
+    (sprintf : String → String → List (List String) → String)
+    (rangeMap : List (String × List Int) → List (String × List Int))
+    (hfmt : ∀ f : Feature, sprintf "%q:%q" f.key f.props = classKey f)
+    (hsort : ∀ l, (sortInts l).Perm l ∧ (sortInts l).Pairwise (· ≤ ·))
+    (hrange : ∀ m, (rangeMap m).Perm m) (ff : Table) :
+    ∃ t, Gen.repair zero nil sortLocs sortInts sprintf rangeMap ff = some t := by
+  obtain ⟨cs, hp, he⟩ := repair_gen_ord zero nil sortInts sprintf rangeMap hfmt hsort hrange ff
+  rw [he]
+  exact repairOrdN_some nil ff cs hp
+
+-- non-vacuity: the hypotheses are satisfiable (the model's key text, the identity order, the model's sort of the
+-- indices), and the generated function fuses two abutting fragments of a gene next to an unrelated feature
+example : ∃ (sprintf : String → String → List (List String) → String) (sortInts : List Int → List Int)
+    (rangeMap : List (String × List Int) → List (String × List Int)),
+    (∀ f : Feature, sprintf "%q:%q" f.key f.props = classKey f) ∧
+    (∀ l, (sortInts l).Perm l ∧ (sortInts l).Pairwise (· ≤ ·)) ∧ (∀ m, (rangeMap m).Perm m) :=
+  ⟨fun _ k p => classKey ⟨k, .point 0, p⟩, fun l => l.mergeSort (fun a b => decide (a ≤ b)), id, fun _ => rfl,
+    fun l => ⟨List.mergeSort_perm l _, by
+      have := List.pairwise_mergeSort (le := fun a b : Int => decide (a ≤ b))
+        (fun a b c h1 h2 => by simp only [decide_eq_true_eq] at *; omega)
+        (fun a b => by simp only [Bool.or_eq_true, decide_eq_true_eq]; omega) l
+      exact this.imp (fun h => by simpa using h)⟩, fun _ => List.Perm.refl _⟩
+example : repair [⟨"gene", .ranged 0 2 false true, []⟩, ⟨"CDS", .point 1, []⟩, ⟨"gene", .ranged 2 4 true false, []⟩] =
+    .ok [⟨"gene", .ranged 0 4 false false, []⟩, ⟨"CDS", .point 1, []⟩] := by rfl
+
 end Gts.Bridge
